@@ -750,7 +750,14 @@ pub fn compile(
     }
 
     if output_to_file {
-        perform_file_io_out(&output_path, &function_buffer, output_bin).to_err_vec()?;
+        // human-readable bytecode is the INPUT of `mscript transpile`, which reads `x.transpiled.mmm`
+        // and writes `x.mmm`: do not put text under the name of the executable file
+        let written_path = if output_bin {
+            output_path.clone()
+        } else {
+            input_path.with_extension("transpiled.mmm")
+        };
+        perform_file_io_out(&written_path, &function_buffer, output_bin).to_err_vec()?;
         Ok(None)
     } else {
         Ok(Some(
